@@ -264,7 +264,7 @@ func (s *Sut) Logon(hb int, reset bool) (RecvMsg, bool) {
 			reset = true
 		}
 		p.Send("A", p.LogonBody(s.E.Cfg.HeartBtInt, reset), MsgOpt{})
-		return lg, true
+		return lg, p.Connected()
 	}
 	if reset {
 		p.OutSeq = 1
